@@ -147,7 +147,10 @@ class Result:
             self.samples.append(s if len(str(s)) < 600 else str(s)[:600] + "…")
 
     def violation(self, key, clause, **kw):
-        if len(self.violations) < 50:
+        # keep at most 3 instances per key so that a frequently reproduced (known) finding cannot crowd out a new violation
+        self.viol_count = getattr(self, "viol_count", {})
+        self.viol_count[key] = self.viol_count.get(key, 0) + 1
+        if self.viol_count[key] <= 3 and len(self.violations) < 60:
             self.violations.append(dict(key=key, clause=clause, **kw))
 
     def exact_break(self, fn, **kw):
